@@ -53,7 +53,7 @@ def _perm_menu(n, k, cap=24):
 
 
 class Rng:
-    def __init__(self, mode="tap", script=None, policy="first", seed=0, only=None, uniform_menu=None):
+    def __init__(self, mode="tap", script=None, policy="first", seed=0, only=None, uniform_menu=None, floats=None):
         assert mode in ("tap", "script")
         self.mode, self.script, self.policy = mode, list(script or []), policy
         self.seed = seed
@@ -62,6 +62,10 @@ class Rng:
         self._pol = _random.Random(f"policy/{seed}")
         self.only = only  # optional set of primitive names to script; others are tapped
         self.uniform_menu = uniform_menu or UNIFORM_MENU
+        # explicit values in [0,1) for successive random.random()/random.uniform() calls (kernel / law extraction);
+        # once exhausted 0.5 is returned
+        self.floats = None if floats is None else list(floats)
+        self.float_calls = 0
 
     # -------------------------------------------------------------- plumbing
     def __enter__(self):
@@ -155,7 +159,16 @@ class Rng:
                  result=list(res))
         return res
 
+    def _next_float(self):
+        i = self.float_calls
+        self.float_calls += 1
+        return self.floats[i] if i < len(self.floats) else 0.5
+
     def _uniform(self, a, b):
+        if self.floats is not None:
+            v = a + (b - a) * self._next_float()
+            self._ev("random.uniform", a=a, b=b, result=v, forced=True)
+            return v
         if self._scripted("random.uniform"):
             menu = [a + (b - a) * x for x in self.uniform_menu]
             d = self._decide(len(menu))
@@ -166,6 +179,10 @@ class Rng:
         return res
 
     def _random(self):
+        if self.floats is not None:
+            v = self._next_float()
+            self._ev("random.random", result=v, forced=True)
+            return v
         if self._scripted("random.random"):
             d = self._decide(len(RANDOM_MENU))
             self._ev("random.random", result=RANDOM_MENU[d], decision=d, nbranch=len(RANDOM_MENU))
